@@ -236,6 +236,7 @@ struct Stats {
     script_hashes: u64,
     input_script_hashes: u64,
     mismatches: u64,
+    renotified: u64,
 }
 
 fn chain_cmd(inp: &Input) {
@@ -406,10 +407,17 @@ fn chain_cmd(inp: &Input) {
             // ---- filters: wait for the builder's own progress condition, then check
             let store_db = n.shared.store();
             let mut ready = false;
-            for _ in 0..36000 {
+            for round in 0..36000u64 {
                 if main.iter().all(|b| store_db.get_block_filter_hash(&blocks[b].view.hash()).is_some()) {
                     ready = true;
                     break;
+                }
+                // the builder marks the notification channel as seen AFTER a build: a block that arrived while the
+                // previous build was finishing is only picked up at the next notification - repeat it (timeliness is
+                // not part of the property; see design.d/C19.md)
+                if round > 0 && round % 400 == 0 {
+                    n.shared.notify_controller().notify_new_block(blocks[main.last().unwrap()].view.clone());
+                    st.renotified += 1;
                 }
                 std::thread::sleep(std::time::Duration::from_millis(5));
             }
@@ -447,7 +455,7 @@ fn chain_cmd(inp: &Input) {
     println!("{}", json!({"summary": {"histories": inp.hists.len(), "steps": st.steps, "reorgs": st.reorgs, "reorgs_deeper_than_1": st.deep, "reorgs_to_shorter_heavier": st.shorter_heavier,
         "flawed_refused": st.refused, "roots": st.roots, "positions": st.positions, "extensions": st.extensions, "proofs": st.proofs,
         "proofs_rejected_on_sibling": st.proofs_rejected_on_sibling, "filters": st.filters, "script_hashes": st.script_hashes,
-        "input_script_hashes": st.input_script_hashes, "mismatches": st.mismatches, "tool_errors": tool_errors.len()}}));
+        "input_script_hashes": st.input_script_hashes, "renotified": st.renotified, "mismatches": st.mismatches, "tool_errors": tool_errors.len()}}));
 }
 
 /// The snapshot / live-store interleaving, placed with the H8 yield point:
@@ -508,9 +516,15 @@ fn race() {
     let _ = release_tx.send(());
     let store = n.shared.store();
     let wait = |hashes: Vec<Byte32>| -> bool {
-        for _ in 0..36000 {
+        for round in 0..36000u64 {
             if hashes.iter().all(|h| store.get_block_filter_hash(h).is_some()) {
                 return true;
+            }
+            if round > 0 && round % 400 == 0 {
+                let tip = n.shared.snapshot().tip_hash();
+                if let Some(b) = store.get_block(&tip) {
+                    n.shared.notify_controller().notify_new_block(b);
+                }
             }
             std::thread::sleep(std::time::Duration::from_millis(5));
         }
